@@ -452,7 +452,9 @@ func c17Run(env *core.Env, ci any) core.Outcome {
 			}
 			return strings.Join(o, "\n")
 		}
-		if len(inH) == len(outH) && strip(inH) == strip(outH) && len(outH) > 0 && strings.HasPrefix(outH[0], "//go:build") {
+		// (the same with a comment that continued the package line now standing above the rewritten first declaration)
+		hoistedPrefix := len(outAll) >= len(inH) && strip(outAll[:len(inH)]) == strip(inH) && len(outAll) > 0 && strings.HasPrefix(outAll[0], "//go:build") && !strings.HasPrefix(inH[0], "//go:build")
+		if hoistedPrefix || len(inH) == len(outH) && strip(inH) == strip(outH) && len(outH) > 0 && strings.HasPrefix(outH[0], "//go:build") {
 			return bad("!gobuild-line-hoisted-above-header-comment", "the //go:build line was moved above a header comment that preceded it (go/printer normalisation), so the header comments are no longer in the same order:\n in  %q\n out %q", inH, outH)
 		}
 		return bad("header-comments-changed", "comments up to the package clause changed:\n in  %q\n out %q", inH, outH)
